@@ -50,6 +50,7 @@ fn json_str(s: &str) -> String {
 fn all_harnesses() -> Vec<HarnessDef> {
   let mut v = vec![];
   v.extend(h_basic::harnesses());
+  v.extend(h_basic::harnesses_c17());
   v.extend(h_subject::harnesses());
   v.extend(h_sched::harnesses());
   v.extend(h_sched::harnesses2());
